@@ -89,7 +89,7 @@ var runCounter int
 // NewSim builds the run context. Must be called inside the bubble.
 func NewSim(t *testing.T, prop string, seed uint64, wl, sch *Tape) *Sim {
 	runCounter++
-	s := &Sim{T: t, Prop: prop, Seed: seed, WL: wl, SCH: sch, MaxSteps: 6000}
+	s := &Sim{T: t, Prop: prop, Seed: seed, WL: wl, SCH: sch, MaxSteps: 30000}
 	s.Stats.Faults = map[string]int{}
 	s.Stats.Probes = map[string]int{}
 	s.W = nats.NewWorld()
